@@ -199,7 +199,7 @@ func cmdJob(args []string) int {
 		fatal(2, "harness %s not found", job.Harness)
 	}
 	t1 := time.Now()
-	res := i.Explore(job, setup, run, Limits{MaxSteps: 50_000_000, MaxDecisions: 5000, MaxPaths: *maxPaths, MaxViolations: 20, Samples: 3, SampleEvery: 100}, nil, nil)
+	res := i.Explore(job, setup, run, Limits{MaxSteps: 50_000_000, MaxDecisions: 5000, MaxPaths: *maxPaths, MaxViolations: 20, Samples: 3, SampleEvery: 100}, nil, nil, nil)
 	fmt.Printf("job %s: paths=%d assume-ends=%d decisions=%d steps=%d queries=%d solver=%.2fs wall=%.2fs\n", job, res.Paths, res.AssumeEnds, res.Decisions, res.Steps, i.solver.Queries, i.solver.Time.Seconds(), time.Since(t1).Seconds())
 	for c, n := range res.Covers {
 		fmt.Printf("  cover %q: %d paths\n", c, n)
